@@ -224,8 +224,9 @@ def try_replay(scratch, cfg, cdir, h, fullnames, logf):
     plog = logf + ".playback"
     cmd = kani_base_cmd(cfg, pkg, cdir) + ["-Z", "concrete-playback", "--concrete-playback=print",
                                            "--exact", "--harness", full]
-    rc, dt = sh(cmd, scratch, int(cfg.get("replay_timeout", 1200)), plog)
-    txt = open(plog, errors="replace").read()
+    off = os.path.getsize(plog) if os.path.exists(plog) else 0
+    rc, dt = sh(cmd, scratch, int(cfg.get("replay_timeout", 900)), plog)
+    txt = open(plog, errors="replace").read()[off:]
     m = re.search(r"```\n(.*?#\[test\]\nfn (kani_concrete_playback_\w+)\(\).*?\n\})\n```", txt, re.S)
     if not m:
         info["notes"].append("Kani produced no concrete playback test")
@@ -256,8 +257,9 @@ def try_replay(scratch, cfg, cdir, h, fullnames, logf):
         cmd += ["--features", ",".join(cfg["features"])]
     cmd += ["--", test_name]
     nlog = logf + ".native"
-    rc, dt = sh(cmd, scratch, int(cfg.get("replay_timeout", 1200)), nlog)
-    ntxt = open(nlog, errors="replace").read()
+    off = os.path.getsize(nlog) if os.path.exists(nlog) else 0
+    rc, dt = sh(cmd, scratch, int(cfg.get("replay_timeout", 900)), nlog)
+    ntxt = open(nlog, errors="replace").read()[off:]
     m2 = re.search(r"test \S*" + re.escape(test_name) + r" \.\.\. (\w+)", ntxt)
     info["native_result"] = m2.group(1) if m2 else "not-run"
     pm = re.search(r"(thread '[^']*' \(?\d*\)? ?panicked at [^\n]*\n[^\n]*)", ntxt)
@@ -449,6 +451,8 @@ def main():
         # ---- violations: replay + report ----
         viol_out = []
         replayed_harnesses = {}
+        # replay the cheapest failing obligations first (row harnesses before whole-table ones)
+        violations.sort(key=lambda t: (t[1].get("time_s") or 1e9))
         for h, r, real in violations:
             rp = os.path.join(EVID, "replay", f"{prop}-{h['name']}.json")
             info = {"replayed_natively": False, "notes": []}
@@ -456,7 +460,7 @@ def main():
             rkey = h.get("replay", h["name"])
             if rkey in replayed_harnesses:
                 info = replayed_harnesses[rkey]
-            elif len(replayed_harnesses) >= int(cfg.get("max_replays", 3)):
+            elif len(replayed_harnesses) >= int(cfg.get("max_replays", 2)):
                 info = {"replayed_natively": False, "notes": ["replay budget exhausted (max_replays)"]}
             elif h["kind"] != "verus":
                 info = try_replay(scratch, cfg, cdir, h, fullnames, logf)
